@@ -3,7 +3,8 @@ from .. import gen
 from . import common
 from .C03 import strict_parse
 
-SPEC_THEOREM = 'Props/C19: serde_to_value (value_to_serde v) is value-equal to v for finite v; object-only variant agrees'
+SPEC_THEOREM = ('Props/C19: serde_to_value (value_to_serde v) is value-equal to v for finite v; object-only variant agrees; '
+                'byte walker: to_serde_json_w (enc v) = to_serde_json_t v, to_serde_json_object_w likewise (SerdeWalk.v, offset-faithful)')
 TRUSTED = ['Coq 8.16.1 kernel', 'translator', 'extraction + OCaml driver', 'Rust harness (structural dump of serde_json::Value)',
            'model Serde.v of the serde_json data model (modelled, not verified)', 'Python json as the strict parser of the rendering']
 ASSUMPTIONS = ['documents are canonical encodings of well-formed values with finite numbers']
@@ -37,6 +38,83 @@ def generate(ctx):
     # non-finite numbers: an error from bytes (never a panic)
     for b in gen.SPECIAL_FLOATS[:3]:
         ctx.add('to_serde_json %s' % gen.hexarg(gen.enc(('a', [('d', b)]))))
+    malformed_stream(ctx, ds)
+
+
+def alloc_safe(m):
+    """no byte that, read as the first byte of a container header, puts count bits >= 2^24 into `with_capacity`
+    (Vec / Map / VecDeque::with_capacity(count) is called before anything is read; a refused allocation aborts the process)"""
+    return all(not ((b & 0xE0) in (0x80, 0x40) and (b & 0x1F)) for b in m)
+
+
+def malformed_stream(ctx, ds):
+    """the byte walker on buffers that are NOT valid encodings (prefixes, one byte changed): C19 says nothing about them,
+    but the offset-faithful model (SerdeWalk.v) does: a failed read / Number::decode error / unknown tag / non-finite float
+    is an error, a slice past the end panics, a string is taken without a UTF-8 check, a repeated key replaces.
+    Tie only (model = code).  Counts stay small: see alloc_safe."""
+    r = ctx.rng
+    small = [v for v in ds if len(gen.enc(v)) <= 120]
+    vals = [0, 1, 2, 3, 0x10, 0x20, 0x30, 0x40, 0x50, 0x60, 0x70]
+    n_skipped = 0
+    for v in r.sample(small, min(len(small), ctx.scale(150, 4000))):
+        e = gen.enc(v)
+        muts = [e[:i] for i in range(len(e))] if len(e) <= 40 else [e[:r.randrange(len(e))] for _ in range(12)]
+        for b0 in (0x80, 0x40, 0x20, 0x00, 0x60):
+            if e[0] != b0:
+                muts.append(bytes([b0]) + e[1:])
+        for _ in range(16):
+            i = r.randrange(2, len(e)) if len(e) > 2 else 0
+            if i < 2:
+                continue
+            muts.append(e[:i] + bytes([r.choice(vals + [e[i] ^ 1, e[i] ^ 0x10, (e[i] + 1) & 0xff])]) + e[i + 1:])
+        for m in muts:
+            if not alloc_safe(m):
+                n_skipped += 1
+                continue
+            h = gen.hexarg(m)
+            ctx.add('to_serde_json %s' % h, kind='malformed')
+            ctx.add('to_serde_json_object %s' % h, kind='malformed')
+    ctx.count('malformed_skipped_allocation', n=n_skipped)
+    # hand-made non-canonical buffers: repeated / unsorted keys, strings and keys that are not UTF-8, unknown entry and
+    # header tags below the top level, a container entry under the scalar header, stray bits in the scalar header
+    w = gen.be32
+    S, NUM, CONT = 0x10000000, 0x20000000, 0x50000000
+    arr1 = w(0x80000001) + w(NUM | 2) + b'\x50\x07'
+    hand = [
+        w(0x40000002) + w(S | 1) + w(S | 1) + w(NUM | 2) + w(NUM | 2) + b'aa' + b'\x50\x01\x50\x02',
+        w(0x40000002) + w(S | 1) + w(S | 1) + w(NUM | 2) + w(NUM | 2) + b'ba' + b'\x50\x01\x50\x02',
+        w(0x40000003) + w(S | 1) * 3 + w(0) + w(0x40000000) + w(0x30000000) + b'kak',
+        w(0x20000000) + w(S | 2) + b'\xff\xfe',
+        w(0x40000001) + w(S | 2) + w(S | 3) + b'\xc3\x28' + b'\xe2\x82\x28',
+        w(0x80000002) + w(0x60000000) + w(0),
+        w(0x80000002) + w(0) + w(0x70000001) + b'x',
+        w(0x80000001) + w(CONT | 4) + w(0xA0000000),
+        w(0x80000001) + w(CONT | 4) + w(0x60000000),
+        w(0x80000001) + w(CONT | 4) + w(0x00000000),
+        w(0x80000001) + w(CONT | 2) + b'\x80\x00',
+        w(0x80000001) + w(CONT | 0),
+        w(0x20000000) + w(CONT | len(arr1)) + arr1,
+        w(0x20000000) + w(CONT | 8) + w(0x20000000) + w(0x40000000),
+        w(0x20000005) + w(NUM | 2) + b'\x50\x07',
+        w(0x20000000) + w(NUM | 3) + b'\x50\x07',
+        w(0x20000000) + w(NUM | 1) + b'\x50\x07',
+        w(0x20000000) + w(NUM | 1) + b'\x20',
+        w(0x20000000) + w(NUM | 1) + b'\x10',
+        w(0x20000000) + w(NUM | 2) + b'\x30\x00',
+        w(0x20000000) + w(NUM | 9) + b'\x60\x7f\xf0\x00\x00\x00\x00\x00\x00',
+        w(0x20000000) + w(NUM | 9) + b'\x60\xff\xf8\x00\x00\x00\x00\x00\x01',
+        w(0x20000000) + w(NUM | 9) + b'\x60\x80\x00\x00\x00\x00\x00\x00\x00',
+        w(0x20000000) + w(NUM | 0),
+        w(0x20000000) + w(0x80000000 | S | 1) + b'x',
+        w(0x40000001) + w(S | 1) + w(CONT | 10) + b'k' + arr1,
+        w(0x80000003) + w(S | 1) + w(S | 1),
+        w(0x40000002) + w(S | 1),
+    ]
+    for m in hand:
+        for mm in [m] + [m[:i] for i in range(4, len(m))]:
+            h = gen.hexarg(mm)
+            ctx.add('to_serde_json %s' % h, kind='malformed')
+            ctx.add('to_serde_json_object %s' % h, kind='malformed')
 
 
 def judge(ctx):
